@@ -25,35 +25,42 @@ ASSUMPTIONS = [
 NSHARDS = {"quick": 16, "thorough": 16}
 BUDGET_S = {"quick": 22, "thorough": 600}
 FLOORS = {
-    "quick": {"evaluations": 8000, "distinct": 1500,
+    "quick": {"evaluations": 8000, "distinct": 400,
               "counters": {"oracle_value_compares": 5000, "oracle_text_compares": 2000,
                            "both_raise_same": 100}},
     "thorough": {"evaluations": 200000, "distinct": 30000,
                  "counters": {"oracle_value_compares": 100000, "oracle_text_compares": 50000,
                               "both_raise_same": 2000}},
 }
-ENVS = ["default", "unopt", "async", "sandbox"]
+ENVS = ["default", "unopt", "async", "sandbox", "autoescape"]
 _envs = None
 
 
 def envs():
     global _envs
     if _envs is None:
-        _envs = util.make_envs(ENVS)
+        _envs = util.make_envs(ENVS[:4])
+        _envs["autoescape"] = util.make_envs(["default"], autoescape=True)["default"]
     return _envs
 
 
-def model_eval(tree, data):
+def model_eval(tree, data, autoescape=False):
     it = M.Interp({})
+    it.autoescape = autoescape
     scope = M.Scope(M.Scope(None, dict(it.globals)), dict(data))
     return util.capture(lambda: it.ev(tree, scope, None))
 
 
-def compare(mo, eo, text=False):
+def compare(mo, eo, text=False, autoescape=False):
     """None if consistent else description."""
     if mo.ok and eo.ok:
         if text:
-            exp = M.model_str(mo.value)
+            if autoescape:
+                from markupsafe import escape
+
+                exp = str(escape(M.soft(mo.value)))
+            else:
+                exp = M.model_str(mo.value)
             return None if eo.value == exp else f"text {eo.value!r} != model {exp!r}"
         return None if util.struct_eq(mo.value, eo.value) else f"value {eo.value!r} != model {mo.value!r}"
     if not mo.ok and not eo.ok:
@@ -78,11 +85,12 @@ def engine_eval(envname, src, data, text):
 def check_tree(tree, recipe, envname, text):
     _, data = exprgen.make_data(None, recipe)
     src = jast.pe_root(tree) if False else jast.pe(tree)
-    mo = model_eval(tree, data)
+    ae = envname == "autoescape"
+    mo = model_eval(tree, data, ae)
     if not mo.ok and isinstance(mo.exc, (RecursionError, MemoryError)):
         return None, src
     eo = engine_eval(envname, src, data, text)
-    return compare(mo, eo, text), src
+    return compare(mo, eo, text, ae), src
 
 
 def subtrees(e):
@@ -141,7 +149,7 @@ def run_case(ctx, tree, recipe, idx):
 
 def run(ctx):
     rng = ctx.rng("trees")
-    g = exprgen.Gen(rng)
+    g = exprgen.Gen(rng, features={"markup"})
     n = 6000 if ctx.tier == "quick" else 250000
     i = 0
     while ctx.more(i, n, floor=200):
